@@ -135,7 +135,7 @@ pub fn run_prog<F: Flavour>(p: &Prog, st: Option<&mut Stats>) -> Vec<String> {
                         "compare-edges: none".to_string()
                     } else {
                         let (x, y) = (&edges_seen[pt::idx(*a, edges_seen.len())], &edges_seen[pt::idx(*b, edges_seen.len())]);
-                        format!("compare-edges {:?} {:?}: eq {} cmp {:?} pcmp {:?} rev {:?} acc {:?}", F::tri(x), F::tri(y), F::edge_eq(x, y), F::edge_cmp(x, y), F::edge_partial_cmp(x, y), F::tri(&F::e_reverse(x)), F::e_accessors(x))
+                        format!("compare-edges {:?} {:?}: eq {} rev {:?} acc {:?}", F::tri(x), F::tri(y), F::edge_eq(x, y), F::tri(&F::e_reverse(x)), F::e_accessors(x))
                     }
                 }
                 PStep::GInsert(k) => {
@@ -527,6 +527,9 @@ pub fn run(ctx: &mut Ctx) {
         st
     });
     ctx.stats.merge(random);
+    // API surface that needs trait impls on the library's types (ordering of edges, heaps, sorting):
+    // the same generated program must compile and print the same with either member of a pair
+    crate::progs::c15_api_programs(ctx);
 }
 
 pub fn replay(v: &Value, st: &mut Stats) -> Result<(), String> {
